@@ -9,7 +9,10 @@ LEVEL_TEXT = ("TLSPin.tla states the pinning rule over certificate/fingerprint t
               "of the CA, truncated, extended, with colons, with a blank, garbage, empty) and transcribes MakeConfig; "
               "TLC checks layer 1 against the statement and emits every case; each case is a real TLS 1.2 / 1.3 "
               "handshake made with tls.MakeConfig directly, through net/http, and through auth.Manager (auth server, "
-              "JWKS); TLC evaluates the statement on every observed connection")
+              "JWKS); sequence cases (pairs and triples of connections in one process to the same server, application data "
+              "exchanged so that TLS sessions could be resumed; pins: matching, other letter case, other certificate, none) "
+              "are judged connection by connection with the same formula (history independence); TLC evaluates the "
+              "statement on every observed connection")
 LEVEL_NOTE = ("the statement is 'succeeds only if': a failing connection with a matching pin is DRIFT, not a verdict; SHA-256 "
               "and the TLS stack are trusted; the harness process trusts only the harness CA (SSL_CERT_FILE) so that a "
               "'valid chain' exists; sources/forwarding use the same MakeConfig and are not driven separately")
@@ -74,38 +77,63 @@ def run(ctx):
     for bad in bads[:40]:
         rec = recs[bad["l"] - 1]
         c = rec["c"]
-        ctx.violation({"via": c["via"], "served": c["served"], "tls": c["ver"], "fp_of": c["fp"]["of"],
-                       "fp_form": c["fp"]["form"], "success": rec["success"]},
+        step = bad.get("step", 0)
+        o = rec["steps"][step - 1] if step else rec
+        fp = c["steps"][step - 1] if step else c["fp"]
+        earlier = ["%s of %s" % (f["form"], f["of"] or "-") for f in c["steps"][:step - 1]] if step else []
+        ctx.violation({"via": c["via"], "served": c["served"], "tls": c["ver"], "fp_of": fp["of"],
+                       "fp_form": fp["form"], "success": o["success"], "step": step, "earlier_pins": earlier,
+                       "resumed": o.get("resumed")},
                       "connection via %s to a server presenting %s (%s) SUCCEEDED with fingerprint %r (%s of %s), which is not "
-                      "the SHA-256 of the served leaf certificate" % (c["via"], c["served"], c["ver"], rec["fptext"],
-                                                                   c["fp"]["form"], c["fp"]["of"]))
+                      "the SHA-256 of the served leaf certificate%s" % (
+                          c["via"], c["served"], c["ver"], o["fptext"], fp["form"], fp["of"],
+                          (" - connection %d of a sequence in one process to the same server, earlier pins: %s, TLS session "
+                           "resumed: %s" % (step, earlier, o.get("resumed"))) if step else ""))
     drift = {}
     for dr in tv.tagged("DRIFT"):
         c = recs[dr["l"] - 1]["c"]
-        k = "%s/%s/%s" % (c["via"], c["served"], c["fp"]["form"])
+        step = dr.get("step", 0)
+        fp = c["steps"][step - 1] if step else c["fp"]
+        k = "%s/%s/%s%s" % (c["via"], c["served"], fp["form"], "/seq" if step else "")
         drift[k] = drift.get(k, 0) + 1
     phases["tlc_trace_validation"] = round(time.time() - t0, 1)
+    # one entry per connection: (case, fingerprint token, observation)
+    conns = []
+    for x in recs:
+        if "steps" in x:
+            conns += [(x["c"], x["c"]["steps"][i], o) for i, o in enumerate(x["steps"])]
+        else:
+            conns.append((x["c"], x["c"]["fp"], x))
     ctx.set("cases_enumerated", len(cases))
     ctx.set("exhaustive", True)
     ctx.set("traces_validated_against_impl", len(recs))
-    ctx.set("connections_succeeded", sum(1 for x in recs if x["success"]))
+    ctx.set("connections_judged", len(conns))
+    ctx.set("sequence_cases", sum(1 for x in recs if "steps" in x))
+    ctx.set("sequence_connections_after_a_successful_one",
+            sum(1 for x in recs if "steps" in x for i, o in enumerate(x["steps"]) if any(p["success"] for p in x["steps"][:i])))
+    ctx.set("connections_resumed_tls_session", sum(1 for _, _, o in conns if o.get("resumed")))
+    ctx.set("connections_succeeded", sum(1 for _, _, o in conns if o["success"]))
     ctx.set("connections_succeeded_with_invalid_chain",
-            sum(1 for x in recs if x["success"] and x["c"]["served"] not in ("Avalid", "Bvalid")))
+            sum(1 for c, _, o in conns if o["success"] and c["served"] not in ("Avalid", "Bvalid")))
     ctx.set("connections_refused_with_valid_chain",
-            sum(1 for x in recs if not x["success"] and x["c"]["served"] in ("Avalid", "Bvalid")
-                and x["c"]["fp"]["form"] != "empty"))
+            sum(1 for c, f, o in conns if not o["success"] and c["served"] in ("Avalid", "Bvalid") and f["form"] != "empty"))
     ctx.set("drift_events", sum(drift.values()))
     ctx.set("phase_wall_s", phases)
     if drift:
         ctx.note("connections whose outcome differs from layer 1 without violating the statement (DRIFT): %s"
                  % json.dumps(drift)[:1500])
     for x in recs:
-        if x["success"] and x["c"]["served"] == "Aexpired" and x["c"]["via"] == "authhttp":
+        if "steps" not in x and x["success"] and x["c"]["served"] == "Aexpired" and x["c"]["via"] == "authhttp":
             ctx.sample({k: x[k] for k in ("c", "success", "fptext")})
             break
     for x in recs:
-        if not x["success"] and x["c"]["served"] == "Bvalid" and x["c"]["fp"]["of"] == "Avalid":
+        if "steps" not in x and not x["success"] and x["c"]["served"] == "Bvalid" and x["c"]["fp"]["of"] == "Avalid":
             ctx.sample({k: x[k] for k in ("c", "success", "fptext", "err")})
+            break
+    for x in recs:
+        if "steps" in x and len(x["steps"]) == 3 and x["steps"][0]["success"] and x["c"]["ver"] == "tls13":
+            ctx.sample({"sequence": x["c"], "success": [o["success"] for o in x["steps"]],
+                        "resumed": [o.get("resumed") for o in x["steps"]]})
             break
     ctx.assume("SHA-256 is collision free on the harness certificates; crypto/tls delivers the peer's leaf as PeerCertificates[0]")
     ctx.assume("the harness process trusts exactly the harness CA (SSL_CERT_FILE/SSL_CERT_DIR set before the first verification)")
